@@ -57,7 +57,7 @@ def audit(prop):
     thms = []
     import re as _re
     # `#print axioms` wraps long lines: match over the whole output
-    for m in _re.finditer(r"'([^']+)' (does not depend on any axioms|depends on axioms: \[([^\]]*)\])", out):
+    for m in _re.finditer(r"'(\S+)' (does not depend on any axioms|depends on axioms: \[([^\]]*)\])", out):
         if m.group(2).startswith("does not"):
             thms.append((m.group(1), []))
         else:
